@@ -23,6 +23,8 @@ CONSTANTS
   WFault = TRUE
   TimeoutCarriesOver = FALSE
   WriteErrKeepsEntry = FALSE
+  AllowFire = TRUE
+  FireRegisters = FALSE
   MaxTry = 1
 INVARIANTS TypeOK OwnTransaction FirstAcceptable ChanClosedOnlyAfterOwnDone NoNilDelivery PendingEntriesLive Capacity IdReusable CloseStopsLoop
 PROPERTIES RefuseWhilePending Isolation NoTxAfterAccept
